@@ -273,6 +273,28 @@ Section DispatchP.
     destruct o; simpl; intros [H|H]; try discriminate; split; try reflexivity; discriminate.
   Qed.
 
+  (* ---- histories: after update_initial_state the obstacle occupies the shape placed at the NEW initial state at the
+     new initial time step and nothing else; after a following update_prediction the general statement applies *)
+  Lemma after_update_initial_state i ty init p st t :
+    occupancy_at_time (update_initial_state S R (Dynamic i ty init p) st) t =
+      (if Z.eqb t (tstep st) then Some (occ_of t st) else None) /\
+    state_at_time (update_initial_state S R (Dynamic i ty init p) st) t = (if Z.eqb t (tstep st) then Some st else None).
+  Proof.
+    simpl. destruct (Z.eqb t (tstep st)); [split; reflexivity|]. destruct (Z.ltb (tstep st) t); split; reflexivity.
+  Qed.
+  Lemma after_set_initial_state_static i ty init st t :
+    occupancy_at_time (set_initial_state S R (Static i ty init) st) t = Some (occ_of t st).
+  Proof. reflexivity. Qed.
+  Lemma after_update_then_prediction i ty init p st tr t : consecutive tr = true ->
+    let o := set_prediction S R (update_initial_state S R (Dynamic i ty init p) st) (Some (PrTraj tr)) in
+    occupancy_at_time o t = option_map (occ_of t) (state_at_time o t) /\
+    state_at_time o (tstep st) = Some st.
+  Proof.
+    intros Hc o. split.
+    - apply occupancy_is_placed_state. exact Hc.
+    - simpl. rewrite Z.eqb_refl. reflexivity.
+  Qed.
+
   (* ---- scenario level *)
   Lemma fold_snoc {A B} (f : list B -> A -> list B) (g : A -> list B) :
     (forall acc o, f acc o = acc ++ g o) -> forall l a, fold_left f l a = a ++ flat_map g l.
